@@ -10,13 +10,14 @@ import re
 from datetime import datetime as dt, timedelta as td
 from types import SimpleNamespace
 
-from .. import common
+from .. import common, gw
 from ..common import Ctx
 
 THEOREMS = [
     "C14_constants_in_range", "C14_grace_is_a_few_seconds", "C14_latest_wins", "C14_not_before_lifespan", "C14_after_twice",
     "C14_span_never_cant", "C14_expiry_monotone", "C14_expired_total", "C14_zero_span_old_refuted",
     "C14_expired_reads_unknown_partial", "C14_first_read_stale_refuted", "C14_store_keys_nodup", "C14_nonvacuous",
+    "C14_held_is_latest", "C14_latest_never_lost", "C14_equal_content_rule_refuted",
     "C14_delete_only_that_message", "C14_delete_invents_nothing",
 ]
 
@@ -223,6 +224,7 @@ def run(ctx: Ctx) -> None:
     DELETE_CASES.clear()
     asyncio.run(end_to_end(ctx, 150 if thorough else 40))
     delete_correspondence(ctx, built)
+    deferred_correspondence(ctx, built, 120 if ctx.tier == "thorough" else 40)
 
 
 async def end_to_end(ctx: Ctx, trials: int) -> None:
@@ -409,6 +411,102 @@ def delete_correspondence(ctx: Ctx, built: bool) -> None:
     ctx.obligation("correspondence:delete", not bad and len(rows) == len(cases), "correspondence",
                    f"{len(bad)} of {len(cases)} differ; first: store {cases[bad[0]][0]} delete {cases[bad[0]][1]}: model {rows[bad[0]]} implementation {cases[bad[0]][2]}" if bad or len(rows) != len(cases)
                    else f"{len(cases)} deletions on real controller / system / zone stores agree with sdel")
+
+
+def deferred_correspondence(ctx: Ctx, built: bool, trials: int) -> None:
+    """Event histories (a packet is stored / an attribute read finds the held message expired or live / the loop turns) on a REAL controller
+    entity -- the store rule of _MessageDB._handle_msg, _msg_value_msg scheduling _delete_msg through the real call_soon -- against M_StoreDeferred."""
+    from ramses_rf.dispatcher import _create_devices_from_addrs  # noqa: PLC0415
+    from ramses_rf.entity_base import _MessageDB  # noqa: PLC0415
+    from ramses_tx.message import Message  # noqa: PLC0415
+    from ramses_tx.packet import Packet  # noqa: PLC0415
+
+    rng = ctx.rng
+    CODES = {"1F09": ["FF0532", "FF0533"], "2E04": ["00FFFFFFFFFFFF00", "01FFFFFFFFFFFF00"]}
+    t0 = dt(2026, 2, 1, 12, 0, 0)
+    cases, impl = [], []
+
+    async def one(evs):
+        g = await gw.make_gateway([f"{t0.isoformat(timespec='microseconds')} 045  I --- {CTL} --:------ {CTL} 30C9 003 0007D0"], None)
+        ctl = g.get_device(CTL)
+        ids = {}
+        try:
+            for k, e in enumerate(evs):
+                if e[0] == "A":
+                    pl = CODES[e[1]][e[2]]
+                    pkt = Packet.from_port(t0 + td(seconds=10 + k), f"045  I --- {CTL} --:------ {CTL} {e[1]} {len(pl) // 2:03d} {pl}")
+                    msg = Message._from_pkt(pkt)
+                    msg._gwy = g
+                    _create_devices_from_addrs(g, msg)
+                    ids[id(msg)] = k + 1
+                    _MessageDB._handle_msg(ctl, msg)
+                elif e[0] == "R":
+                    held = ctl._msgs_.get(e[1])
+                    if held is not None and e[2]:
+                        held._fraction_expired = 99.0        # the environment's verdict: this read finds it expired (sticky, as in Message._expired)
+                    ctl._msg_value_msg(held)
+                else:
+                    for _ in range(3):
+                        await asyncio.sleep(0)
+            return [ids.get(id(ctl._msgs_.get(c)), 0) if ctl._msgs_.get(c) is not None else 0 for c in sorted(CODES)]
+        finally:
+            await g.stop()
+
+    for trial in range(trials):
+        evs = []
+        for _ in range(rng.randint(3, 14)):
+            r = rng.random()
+            if r < 0.45:
+                evs.append(("A", rng.choice(sorted(CODES)), rng.randrange(2)))
+            elif r < 0.8:
+                evs.append(("R", rng.choice(sorted(CODES)), rng.random() < 0.6))
+            else:
+                evs.append(("T",))
+        if trial < 2:       # the history that lost the newest reading before the repair
+            evs = [("A", "1F09", 0), ("R", "1F09", True), ("A", "1F09", 0), ("T",)] + evs[:trial * 3]
+        got, _ = gw.run_async(one, evs)
+        ctx.case(("deferred", tuple(evs)), any(e[0] == "R" and e[2] for e in evs), "deferred-deletion-history")
+        terms = []
+        for k, e in enumerate(evs):
+            if e[0] == "A":
+                terms.append(f"DArrive (mkD {k + 1} {int(e[1], 16)} {e[2]})")
+            elif e[0] == "R":
+                terms.append(f"DRead {int(e[1], 16)} {'true' if e[2] else 'false'}")
+            else:
+                terms.append("DTurn")
+        cases.append("[" + "; ".join(terms) + "]")
+        impl.append(got)
+        # the statement itself: the newest arrival of a code is held unless a read found that very message expired
+        for ci, c in enumerate(sorted(CODES)):
+            arr = [k + 1 for k, e in enumerate(evs) if e[0] == "A" and e[1] == c]
+            if not arr:
+                continue
+            newest, sched_newest = arr[-1], False
+            held = 0
+            for k, e in enumerate(evs):      # replay the bookkeeping: which message each expired read saw
+                if e[0] == "A" and e[1] == c:
+                    held = k + 1
+                elif e[0] == "R" and e[1] == c and e[2] and held == newest:
+                    sched_newest = True
+            if not sched_newest and got[ci] != newest:
+                ctx.violation("newest-message-lost-to-a-deferred-deletion", "the newest message for a code is no longer held although no read found it expired",
+                              {"events": [list(e) for e in evs], "code": c, "held": got[ci], "newest": newest}, "history")
+    if not built:
+        ctx.obligation("correspondence:deferred-deletion", False, "correspondence", "model not built")
+        return
+    pre = ("From Coq Require Import ZArith List Bool.\nFrom RV Require Import M_StoreDeferred.\nImport ListNotations.\nOpen Scope Z_scope.\n"
+           "Set Printing Width 1000000.\nSet Printing Depth 1000000.\n"
+           "Definition held (evs : list dev) : list Z := map (fun c => match dget (s_store (drun del_is evs)) c with Some m => d_id m | None => 0 end) [0x1F09; 0x2E04].\n")
+    rc, out = common.coq_eval("C14dd", {"x": pre + "Eval vm_compute in (map held " + common.coq_list(cases, ";\n ") + ")."}, timeout=300)["x"]
+    m = re.search(r"=\s*(\[.*\])\s*:\s*list", out, flags=re.S)
+    if rc or not m:
+        ctx.obligation("correspondence:deferred-deletion", False, "correspondence", out[-400:])
+        return
+    rows = [list(r) for r in eval(m.group(1).replace(";", ","), {"__builtins__": {}})]  # noqa: S307
+    bad = [i for i, (r, g) in enumerate(zip(rows, impl)) if r != g]
+    ctx.obligation("correspondence:deferred-deletion", not bad and len(rows) == len(impl), "correspondence",
+                   f"{len(bad)} of {len(impl)} histories differ; first: {cases[bad[0]]}: model holds {rows[bad[0]]}, the real controller entity {impl[bad[0]]}" if bad or len(rows) != len(impl)
+                   else f"{len(impl)} histories of arrivals / expired and live reads / loop turns on a real controller entity: what is held agrees with the model")
 
 
 def replay(case: dict) -> int:
